@@ -43,8 +43,11 @@ def run(out, tier, seed):
     work = core.scratch("c05-")
     cases = []
     sigs_all = {}
-    plans = [(5, ["p1", "p3", "p4", "bad"]), (4, ["p6", "p1", "p4"]), (4, ["p7", "p8", "p9"])] if tier == "quick" else \
-            [(6, ["p1", "p3", "p4", "bad"]), (6, ["p2", "p5", "p4", "bad2"]), (5, ["p1", "p2", "p3", "p4", "p5"]), (6, ["p6", "p1", "p4", "bad2"]), (6, ["p7", "p8", "p9", "p1"])]
+    if tier == "quick":
+        plans = [(5, ["p1", "p3", "p4", "bad"]), (4, ["p6", "p1", "p4"]), (4, ["p7", "p8", "p9"])]
+    else:
+        plans = [(6, ["p1", "p3", "p4", "bad"]), (5, ["p2", "p5", "p4", "bad2"]), (5, ["p1", "p2", "p3", "p4", "p5"]),
+                 (5, ["p6", "p1", "p4", "bad2"]), (5, ["p7", "p8", "p9", "p1"])]
     for maxops, uni in plans:
         hists, sigs = L.explore(out, maxops, uni, f"LifeMechMC[{maxops},{'+'.join(uni)}]")
         for s, w in sigs.items():
@@ -53,7 +56,7 @@ def run(out, tier, seed):
             cases.append({"id": len(cases), "src": "tlc-exhaustive", "ops": with_how(rng, h)})
     for s, w in sigs_all.items():
         cases.append({"id": len(cases), "src": "witness:" + s, "ops": with_how(rng, w)})
-    nrand = 300 if tier == "quick" else 6000
+    nrand = 300 if tier == "quick" else 3000
     for _ in range(nrand):
         cases.append({"id": len(cases), "src": "random", "ops": random_history(rng, rng.randint(6, 30))})
     traces = L.run_histories(cases, work)
